@@ -115,6 +115,9 @@ def case_strategy(draw, tier):
         case['implied_constraints'] = draw(st.booleans())
         case['stdin'] = (case['fmt'] == 'csv' and cmd == 'verify'
                          and draw(st.integers(0, 4)) == 0)
+        if case['stdin'] and draw(st.booleans()):
+            # white space at the very start of the data is data
+            fr['cols'][0]['name'] = ' c0'
         if cmd == 'detect':
             names = [c['name'] for c in fr['cols']]
             case['write_all'] = draw(st.booleans())
@@ -135,7 +138,10 @@ def case_strategy(draw, tier):
             'detect-missing-input', 'verify-missing-constraints',
             'detect-missing-constraints', 'discover-unknown-flag',
             'verify-unknown-flag', 'detect-unknown-flag',
-            'detect-both-per-constraint', 'detect-both-output-fields']))
+            'detect-both-per-constraint', 'detect-both-output-fields',
+            # flags that belong to other sub-commands are unknown flags too
+            'discover-epsilon', 'discover-all', 'discover-type-checking',
+            'verify-write-all', 'discover-per-constraint']))
     return case
 
 
@@ -152,7 +158,7 @@ def valid(case):
         if fr['n'] < 1:
             return False
         for c in fr['cols']:
-            if not re.match(r'^c\d(,c\d)?$', c['name']):
+            if not re.match(r'^ ?c\d(,c\d)?$', c['name']):
                 return False
             if c['kind'] in ('float64', 'string') and all(
                     v is None for v in c['cells']):
@@ -325,6 +331,17 @@ def run(case, ctx):
             argv = ['discover', '--frobnicate', data,
                     os.path.join(d, 'new.tdda')]
             target = os.path.join(d, 'new.tdda')
+        elif e in ('discover-epsilon', 'discover-all',
+                   'discover-type-checking', 'discover-per-constraint'):
+            argv = ['discover'] + {'discover-epsilon': ['--epsilon', '0.5'],
+                                   'discover-all': ['-a'],
+                                   'discover-type-checking': ['-t', 'strict'],
+                                   'discover-per-constraint':
+                                   ['--per-constraint']}[e] + [
+                data, os.path.join(d, 'new.tdda')]
+            target = os.path.join(d, 'new.tdda')
+        elif e == 'verify-write-all':
+            argv = ['verify', '--write-all', data, cons]
         elif e == 'verify-unknown-flag':
             argv = ['verify', '--frobnicate', data, cons]
         elif e == 'detect-unknown-flag':
